@@ -423,32 +423,19 @@ Proof.
         intros X. apply Hn. apply in_map_iff in X. destruct X as (t & E1 & Ht). apply in_map_iff. exists t. split; auto. apply B, Ht.
 Qed.
 
-Definition ungate (p : peer) (l : list task) : list task :=
-  map (fun t => if t_peer t =? p then mkTask (t_id t) (t_peer t) (t_closing t) false else t) l.
-
-Lemma ungate_in p l t : In t (ungate p l) ->
-  exists t0, In t0 l /\ t_id t = t_id t0 /\ t_peer t = t_peer t0 /\ t_closing t = t_closing t0.
-Proof.
-  unfold ungate. intros H. apply in_map_iff in H. destruct H as (t0 & E & H0). exists t0.
-  destruct (t_peer t0 =? p); subst t; cbn; auto.
-Qed.
-
-Lemma ungate_ids p l : map t_id (ungate p l) = map t_id l.
-Proof. unfold ungate. rewrite map_map. apply map_ext. intros t. destruct (t_peer t =? p); auto. Qed.
-
 Lemma existsb_false {A} (f : A -> bool) l : (forall x, In x l -> f x = false) -> existsb f l = false.
 Proof. induction l as [|a l IH]; cbn; auto. intros H. rewrite (H a), IH; auto. Qed.
 
-Lemma rshape_release s p l' ev0 n :
-  HInv s -> finish_tasks p (ungate p (tasks s)) = (l', ev0, n) ->
+Lemma rshape_release s p older l' ev0 n :
+  HInv s -> finish_tasks p (ungate s p older (tasks s)) = (l', ev0, n) ->
   rshape s p (run_shutdowns (set_tasks s l') p n) (ev0 ++ (if n =? 0 then [] else shut_ev (set_tasks s l') p)).
 Proof.
   intros [H1 H2 HT] F. destruct (finish_facts _ _ _ _ _ F) as (A & B & C).
   set (s1 := set_tasks s l').
-  assert (NDl : NoDup (map t_id (ungate p (tasks s)))) by (rewrite ungate_ids; apply (h_nodup s HT)).
+  assert (NDl : NoDup (map t_id (ungate s p older (tasks s)))) by (rewrite ungate_ids; apply (h_nodup s HT)).
   assert (TD : TPart s1).
   { eapply TPart_der; eauto; subst s1; setters; auto.
-    intros t' Ht'. destruct (B t' Ht') as [Hl _]. destruct (ungate_in _ _ _ Hl) as (t0 & I0 & E1 & E2 & E3).
+    intros t' Ht'. destruct (B t' Ht') as [Hl _]. destruct (ungate_in _ _ _ _ _ Hl) as (t0 & I0 & E1 & E2 & E3).
     exists t0. repeat split; auto. intros X. left. congruence. }
   assert (P1 : ps s1 = ps s) by reflexivity.
   assert (F1 : hopen s1 = hopen s /\ hsink s1 = hsink s) by (split; reflexivity).
@@ -458,7 +445,7 @@ Proof.
   assert (NoCur : forall k0, ps s p = Some (Open k0) -> n = 0 \/ task_closed s1 k0 = false -> existsb (cur k0) ev0 = false).
   { intros k0 Hp Hn. apply existsb_false. intros e He. destruct (A e He) as (t & b & I1 & -> & I3 & I4 & I5).
     cbn. destruct (t_id t =? k0) eqn:E; auto. apply N.eqb_eq in E. exfalso.
-    destruct (ungate_in _ _ _ I1) as (t0 & J0 & E1 & E2 & E3).
+    destruct (ungate_in _ _ _ _ _ I1) as (t0 & J0 & E1 & E2 & E3).
     assert (Pt : t_peer t = p).
     { unfold fin in I3. apply andb_true_iff in I3. destruct I3 as [I3 _]. apply andb_true_iff in I3. destruct I3 as [I3 _]. now apply N.eqb_eq. }
     destruct b.
@@ -620,7 +607,7 @@ Qed.
 Lemma main_mshape c s o : HInv s -> mshape s (main_handler c s o).
 Proof.
   intros HI.
-  destruct o as [p|p|p|p|p|p|p b|p b|p a|p|p|p|p|p g|p|p|p|p|p g|p|p m|p m|p m|p m]; cbn [main_handler].
+  destruct o as [p|p|p|p|p|p|p b|p b|p a|p|p|p|p|p g|p older|p|p|p|p g|p|p m|p m|p m|p m]; cbn [main_handler].
   - destruct (conn s p); [apply ms_quiet; quiet_tac|].
     apply ms_of_quiet. eapply quiet_frame; [|apply quiet_on_established]. repeat split.
   - destruct (conn s p); [|apply ms_quiet; quiet_tac].
@@ -647,9 +634,8 @@ Proof.
   - apply ms_quiet. quiet_tac.
   - apply mshape_task_die; auto.
   - (* Release *)
-    fold (ungate p (tasks s)).
-    destruct (finish_tasks p (ungate p (tasks s))) as [[l' e'] n'] eqn:F.
-    apply (ms_rep s p). apply rshape_release; auto.
+    destruct (finish_tasks p (ungate s p older (tasks s))) as [[l' e'] n'] eqn:F.
+    apply (ms_rep s p). eapply rshape_release; eauto.
   - destruct (conn s p); apply ms_quiet; quiet_tac.
   - destruct (lastt s p) as [k|]; [|apply ms_quiet; quiet_tac].
     apply (ms_rep s p). apply rshape_map; auto.
